@@ -122,6 +122,8 @@ def _safe_setattr(obj, name, value):
 
 SAFE_BUILTINS = {
     "setattr": _safe_setattr,
+    "NotImplemented": NotImplemented,
+    "Ellipsis": Ellipsis,
     "isinstance": isinstance,
     "len": len,
     "enumerate": lambda x, start=0: list(enumerate(x, start)),
@@ -484,7 +486,7 @@ class HostInterp:
                 srcs = {imp[1:] for m_ in _od.PACKAGE.modules.values() for nm, imp in m_.imports.items() if nm == e.id and imp[0] == "ext"}
                 if len(srcs) == 1:
                     modname, attr = next(iter(srcs))
-                    if modname in ("itertools", "functools", "math", "re", "textwrap", "copy", "operator") and attr and not attr.startswith("_"):
+                    if modname in ("itertools", "functools", "math", "re", "textwrap", "copy", "operator", "types", "typing") and attr and not attr.startswith("_") and hasattr(__import__(modname), attr):
                         return getattr(__import__(modname), attr)
             if _od.PACKAGE is not None and e.id in ("typing", "types", "inspect", "math", "re", "itertools", "functools", "textwrap", "copy", "operator") and any(imp[0] == "extmod" and imp[1] == e.id for m_ in _od.PACKAGE.modules.values() for nm, imp in m_.imports.items() if nm == e.id):
                 # a standard-library module some module of the package imports under its own name
@@ -816,6 +818,9 @@ class HostInterp:
             return obj
         if fn is isinstance:
             return isinstance(args[0], args[1])
+        if fn is issubclass and len(args) == 2 and isinstance(args[0], type) and (isinstance(args[1], type) or (isinstance(args[1], tuple) and all(isinstance(x, type) for x in args[1]))):
+            # on real classes the host's answer *is* the program's: a TypeError raised by a metaclass is the program's too
+            return issubclass(args[0], args[1])
         if isinstance(fn, type) and issubclass(fn, ast.AST):
             return fn(*args, **kwargs)
         if fn in (int, str) and len(args) <= 1:
@@ -840,7 +845,7 @@ class HostInterp:
                 return fn(*args, **kwargs)
             except (TypeError, ValueError, KeyError, IndexError) as ex:
                 raise AnalysisError(f"interpretation: {d or fn} failed on abstract values: {type(ex).__name__}: {ex}")
-        if fn in SAFE_BUILTINS.values() or (callable(fn) and getattr(fn, "__self__", None) is not None and isinstance(fn.__self__, self.host_types + (_re.Match, _re.Pattern))) or getattr(fn, "__module__", None) in ("re", "textwrap", "itertools", "functools", "math", "copy", "operator", "_operator"):
+        if fn in SAFE_BUILTINS.values() or (callable(fn) and getattr(fn, "__self__", None) is not None and isinstance(fn.__self__, self.host_types + (_re.Match, _re.Pattern))) or getattr(fn, "__module__", None) in ("re", "textwrap", "itertools", "functools", "math", "copy", "operator", "_operator", "typing"):
             try:
                 return fn(*args, **kwargs)
             except (TypeError, ValueError, KeyError, IndexError) as ex:
